@@ -1140,6 +1140,10 @@ impl Sessions {
         self.reserve_global_group_data_ctr(crypto)
     }
 
+    pub fn verif_unreserve_global_group_data_ctr(&mut self, value: u32) {
+        self.unreserve_global_group_data_ctr(value)
+    }
+
     pub fn verif_get_or_init_global_group_data_ctr<C: Crypto>(
         &mut self,
         crypto: C,
